@@ -14,12 +14,13 @@ def sh(cmd, **kw): return subprocess.run(cmd, shell=True, capture_output=True, t
 def build_and_demo(demo_c, tag):
     b = WT + '/_b'
     shutil.rmtree(b, ignore_errors=True)
-    r = sh('cmake -G Ninja -S %s -B %s -DCMAKE_BUILD_TYPE=RelWithDebInfo && cmake --build %s' % (WT, b, b))
+    cf = os.environ.get('SEED_CFLAGS', '')
+    r = sh('cmake -G Ninja -S %s -B %s -DCMAKE_BUILD_TYPE=RelWithDebInfo %s && cmake --build %s' % (WT, b, ('-DCMAKE_C_FLAGS=' + cf) if cf else '', b))
     if r.returncode: return {'build': 'FAILED', 'log': (r.stdout + r.stderr)[-800:]}
     t = sh('%s/polyseed-tests | tail -1' % b)
     suite = 'All tests were successful' in t.stdout
     exe = '/tmp/seed_demo_%s' % tag
-    c = sh('gcc -O1 -I%s/include -DPOLYSEED_STATIC %s %s/libpolyseed.a -lutf8proc -lpthread -lm -o %s' % (WT, demo_c, b, exe))
+    c = sh('gcc -O1 ' + os.environ.get('SEED_CFLAGS', '') + ' -I%s/include -DPOLYSEED_STATIC %s %s/libpolyseed.a -lutf8proc -lpthread -lm -o %s' % (WT, demo_c, b, exe))
     if c.returncode: return {'build': 'ok', 'suite_passes': suite, 'demo': 'COMPILE FAILED', 'log': c.stderr[-800:]}
     try:
         d = subprocess.run([exe], capture_output=True, text=True, timeout=300)
@@ -68,7 +69,7 @@ def main():
         sh('git -C %s checkout -- .; git -C %s clean -fdq' % (WT, WT))
     meta = {'property': pid, 'candidate': letter, 'origin': 'independent sub-agent given only the property text and a scratch worktree (/tmp/seed_%s)' % pid,
             'repo_head': head, 'valid': bool(ok), 'confirmed_by_me': {'unchanged_tree': clean, 'changed_tree': changed,
-            'how': 'scratch worktree /tmp/wt_seedeval of /repo HEAD: cmake RelWithDebInfo build, polyseed-tests, demo.c linked against libpolyseed.a; with and without patch.diff'},
+            'library_cflags': os.environ.get('SEED_CFLAGS', ''), 'how': 'scratch worktree /tmp/wt_seedeval of /repo HEAD: cmake RelWithDebInfo build, polyseed-tests, demo.c linked against libpolyseed.a; with and without patch.diff'},
             'checks_run': res, 'needs_to_manifest': 'see README.txt'}
     old = os.path.join(dst, 'meta.json')
     if os.path.exists(old):
